@@ -254,3 +254,36 @@ def invalid_scalars(group, rnd):
         out += [("zero", bytes(32)), ("unclamped-low", _le(2 ** 254 + 1, 32)), ("unclamped-high", _le(2 ** 255 + 2 ** 254 + 8, 32)),
                 ("no-bit254", _le(8, 32)), ("allff", b"\xff" * 32)]
     return out
+
+
+def structured_alterations(rnd, m, lo, hi, n_pairs=40, n_random=0):
+    """multi-byte alterations of m[lo:hi] that defeat weakened comparisons (XOR / additive checksums, symmetric
+    functions, lane-wise or truncated compares): same xor mask at two positions, +d/-d at two positions, swaps of two
+    unequal bytes, rotation, reversal, complement, tail/head randomisation; yields (label, bytes)"""
+    out = []
+    ln = hi - lo
+    if ln < 2:
+        return out
+    for _ in range(n_pairs):
+        i, j = rnd.sample(range(lo, hi), 2)
+        mask = rnd.randrange(1, 256)
+        x = bytearray(m); x[i] ^= mask; x[j] ^= mask
+        out.append(("xor %02x at %d and %d" % (mask, i, j), bytes(x)))
+        d = rnd.randrange(1, 256)
+        x = bytearray(m); x[i] = (x[i] + d) & 0xff; x[j] = (x[j] - d) & 0xff
+        out.append(("+%d at %d, -%d at %d" % (d, i, d, j), bytes(x)))
+        if m[i] != m[j]:
+            x = bytearray(m); x[i], x[j] = x[j], x[i]
+            out.append(("swap %d and %d" % (i, j), bytes(x)))
+    seg = m[lo:hi]
+    for k in (1, ln // 2, ln - 1):
+        out.append(("rotate by %d" % k, m[:lo] + seg[k:] + seg[:k] + m[hi:]))
+    out.append(("reversed", m[:lo] + seg[::-1] + m[hi:]))
+    out.append(("complemented", m[:lo] + bytes(b ^ 0xff for b in seg) + m[hi:]))
+    for cut in sorted(set([1, 8, 16, ln // 2, ln - 16 if ln > 16 else 1, ln - 1])):
+        if 0 < cut < ln:
+            out.append(("tail from %d randomised" % cut, m[:lo + cut] + bytes(rnd.getrandbits(8) for _ in range(ln - cut)) + m[hi:]))
+            out.append(("head up to %d randomised" % cut, m[:lo] + bytes(rnd.getrandbits(8) for _ in range(cut)) + m[lo + cut:]))
+    for _ in range(n_random):
+        out.append(("random", m[:lo] + bytes(rnd.getrandbits(8) for _ in range(ln)) + m[hi:]))
+    return [(l, b) for (l, b) in out if b != m]
